@@ -19,6 +19,7 @@ pub mod c24;
 pub mod c25;
 pub mod c29;
 pub mod c30;
+pub mod c31;
 pub mod c34;
 pub mod eval;
 pub mod hist;
@@ -103,6 +104,7 @@ pub fn registry() -> Vec<PropInfo> {
     v.extend(c23::props());
     v.extend(c29::props());
     v.extend(c30::props());
+    v.extend(c31::props());
     v.extend(c34::props());
     v
 }
